@@ -107,7 +107,9 @@ def packets (impl : String) : P Verdict := do
         if !emptyOk ∨ per.contains (some false) then some false
         else if per.contains none then none else some true
     | _ => some false
-  pure { modelEq := impl == model, specOk := specOk, kf := [],
+  let kf : List String :=
+    if (List.range nflows).any (fun f => Spec.laterRecord (flowSegs f)) then ["KF.C08.laterRecordReported"] else []
+  pure { modelEq := impl == model, specOk := specOk, kf := kf,
          tag := "+".intercalate tags ++ (if nflows > 1 then ":multi" else ":one"),
          model := model, spec := match specOk with | none => "-" | some true => "ok" | some false => "violated" }
 
